@@ -249,7 +249,7 @@ end Grog.Sys
   A signal cancels the root context at any moment; what the process then exits with, per phase:
     loading      a loader that looks at the context (BUILD.star) fails: Fatalf, exit 1; the others finish
     lockWait     `locker.Lock(ctx)` returns ctx.Err(): Fatalf, exit 1
-    executing    Walk returns through ctx.Done: exit 1 (C18.exit_nonzero); or it had already finished
+    executing    Walk returns the context error, through ctx.Done or (since 1e66bd4) through the wait group: exit 1
     running      exec.CommandContext refuses to start / kills the binary: cmd.Run fails: Fatalf, exit 1
 -/
 namespace Grog.Life
@@ -304,7 +304,10 @@ def step (cmd : Cmd) (s : State) : Ev → Option State
       match r with
       | .viaCtx => if s.ctx then some { s with phase := .exited 1 } else none
       | .finished true => some { s with phase := .exited 1 }
-      | .finished false => some { s with phase := if cmd = .run then .starting else .exited 0 }
+      | .finished false =>
+        -- since 1e66bd4 Walk returns the context error also through the wait group when the context is cancelled
+        if s.ctx then some { s with phase := .exited 1 }
+        else some { s with phase := if cmd = .run then .starting else .exited 0 }
     else none
   | .binStarted => if s.phase = .starting ∧ s.ctx = false then some { s with phase := .running } else none
   | .binRefused => if s.phase = .starting ∧ s.ctx = true then some { s with phase := .exited 1 } else none
